@@ -235,9 +235,11 @@ def finish(rep, pid, tier, mcs, cat_states, traces, extra_cov=None, assumptions=
     if extra_cov:
         cov.update(extra_cov)
     return rep.finish('model_checking', cov, list(assumptions) + [
-        'values are drawn from {1, 2, 1.0, True, "a", "x"}; defaults are 2; signatures: 0-2 positional-or-keyword '
-        'parameters (with/without default), optional *args, 0-1 keyword-only parameter, optional **kw (48 shapes); '
-        'plain functions (methods and partials are exercised by C19 for binding only)',
+        'values are drawn from {1, 2, 1.0, True, "a", "x", "1", a long string, a tuple, a user object}; defaults are 2; signatures: 0-2 '
+        'positional parameters (with/without default; none, the first or all of them positional-only), optional *args, 0-1 '
+        'keyword-only parameter, optional **kw (144 shapes); plain functions, functools.partial (fixing the keyword-only default / a '
+        '**kw keyword), methods (instance ignored by name or by index), callable instances, functions sharing a code object',
+        'groups with more than 300 valid calls are sampled (seeded)',
         'exhaustive within these bounds only'])
 
 
